@@ -48,7 +48,7 @@ func dedupeCI(names []string) []string {
 
 func identTree(g *exprGen, depth int) *model.Node {
 	r := g.r
-	ids := []string{"a", "A", "b", "B", "abc", "Abc", "ABC", "x1", "_y", "Min", "min", "sum", "\"a\"", "\"two words\"", "\"AND\"", "é", "É", "iff", "nulls", "ins", "tk", "t\u212a", "TK"}
+	ids := []string{"a", "A", "b", "B", "abc", "Abc", "ABC", "x1", "_y", "Min", "min", "sum", "\"a\"", "\"two words\"", "\"AND\"", "\"\"\"a\"\"\"", "\"a\"\"b\"", "\"\"\"\"", "\"'abc'\"", "é", "É", "iff", "nulls", "ins", "tk", "t\u212a", "TK"}
 	fns := []string{"Min", "min", "MAX", "Sum", "a", "abc", "f", "Array", "If"}
 	if depth <= 0 || r.Chance(1, 5) {
 		switch r.Intn(6) {
@@ -193,6 +193,8 @@ func c18Run(c *mon.Case, ops string, kind string) {
 	realVars := map[int]variables.IVariable{}
 	realFuncs := map[int]functions.IFunction{}
 	nextID := 0
+	var handed []*variants.Variant
+	var handedVal []int
 	var trace []string
 	findCI := func(name string) int {
 		for i, e := range model {
@@ -289,8 +291,11 @@ func c18Run(c *mon.Case, ops string, kind string) {
 					return
 				}
 				nextID++
-				realVars[model[0].id].SetValue(variants.VariantFromInteger(nextID))
+				given := variants.VariantFromInteger(nextID)
+				realVars[model[0].id].SetValue(given)
 				model[0].val = nextID
+				handed = append(handed, given) // the caller keeps the object it handed in
+				handedVal = append(handedVal, nextID)
 			default:
 				// in-place update of the value object of the last variable: every variable owns its value
 				if kind != "variables" || len(model) == 0 {
@@ -301,6 +306,11 @@ func c18Run(c *mon.Case, ops string, kind string) {
 				k := len(model) - 1
 				realVars[model[k].id].Value().SetAsInteger(nextID)
 				model[k].val = nextID
+				for i, h := range handed {
+					if h == realVars[model[k].id].Value() {
+						handedVal[i] = nextID
+					}
+				}
 			}
 		})
 		if pn != nil {
@@ -398,6 +408,11 @@ func c18Run(c *mon.Case, ops string, kind string) {
 		if pn != nil {
 			c.FailPanic(kind+" collection observation", pn)
 			return
+		}
+		for i, h := range handed {
+			if bad == "" && (h.Type() != variants.Integer || h.AsInteger() != handedVal[i]) {
+				bad = fmt.Sprintf("a value object the caller handed to SetValue earlier (holding %d) was altered through the collection: it now holds %s", handedVal[i], snap(h))
+			}
 		}
 		if bad != "" {
 			c.Failf(kind+" collection diverges from an ordered list", "after [%s]: %s", strings.Join(trace, "; "), bad)
@@ -592,9 +607,106 @@ func buildC18(cfg *mon.Config) []*mon.Sub {
 					return
 				}
 			}
+			// the public CreateVariables on a map of the caller's own, with automatic variables on and off
+			for _, auto := range []bool{true, false} {
+				t2 := mustache.NewMustacheTemplate()
+				t2.SetAutoVariables(auto)
+				t2.SetDefaultVariables(map[string]string{"elsewhere": "x"})
+				if pn := mon.Try(func() { err = t2.SetTemplate(src) }); pn != nil || err != nil {
+					c.Failf("template rejects what its parser accepts", "template=%q: %v %v", src, pn, err)
+					return
+				}
+				own := map[string]string{"KEEP": "1"}
+				if len(want) > 0 && want[0] != "keep" {
+					own[strings.ToUpper(want[0])] = "v"
+				}
+				t2.CreateVariables(&own)
+				keys := map[string]int{}
+				for k := range own {
+					keys[strings.ToLower(k)]++
+				}
+				okOwn := own["KEEP"] == "1" && keys["keep"] == 1
+				n := 1
+				for _, w := range want {
+					if w != "keep" {
+						n++
+					}
+					if keys[w] != 1 {
+						okOwn = false
+					}
+				}
+				if !okOwn || len(own) != n {
+					c.Failf("CreateVariables on the caller's own map does not leave exactly one entry per template name, keeping earlier entries", "template=%q automatic variables=%v map after CreateVariables=%q, template names %q", src, auto, own, want)
+					return
+				}
+			}
 			if len(want) >= 2 {
 				c.NonTrivial()
 			}
+		},
+	}
+	punct := &mon.Sub{
+		Name: "names-that-differ-outside-letters", Rule: "every ordered pair of distinct ASCII characters that are not letters (controls from U+0001, blanks, digits, punctuation; 69 characters) placed in the middle of otherwise equal names v?w: the two are different names - added to a variable collection (and, for printable characters, used as quoted identifiers in one expression with automatic variables) they give two entries, each found by its own name with its own value, index and removal; letter case is the only thing name comparison may ignore",
+		Exhaustive: true, DistinctByGen: true, Floor: 1000,
+		Gen: func(emit func(string)) {
+			var chars []rune
+			for ch := rune(1); ch < 0x80; ch++ {
+				if (ch >= 'a' && ch <= 'z') || (ch >= 'A' && ch <= 'Z') || ch == '"' {
+					continue
+				}
+				chars = append(chars, ch)
+			}
+			for _, a := range chars {
+				for _, b := range chars {
+					if a != b {
+						emit(string(a) + string(b))
+					}
+				}
+			}
+		},
+		Exec: func(c *mon.Case) {
+			rs := []rune(c.Payload)
+			n1, n2 := "v"+string(rs[0])+"w", "V"+string(rs[1])+"w"
+			vc := variables.NewVariableCollection()
+			v1, v2 := variables.NewVariable(n1, variants.VariantFromInteger(1)), variables.NewVariable(n2, variants.VariantFromInteger(2))
+			vc.Add(v1)
+			vc.Add(v2)
+			probe1, probe2 := strings.ToUpper(n1), strings.ToLower(n2)
+			if vc.Length() != 2 || vc.FindByName(probe1) != variables.IVariable(v1) || vc.FindByName(probe2) != variables.IVariable(v2) || vc.FindIndexByName(probe2) != 1 || vc.FindIndexByName(probe1) != 0 || vc.Locate(probe2) != variables.IVariable(v2) || vc.Length() != 2 {
+				c.Failf("variable names that differ in a character that is not a letter are taken for one name", "collection [%q=1, %q=2]: FindIndexByName(%q)=%d FindIndexByName(%q)=%d length=%d", n1, n2, probe1, vc.FindIndexByName(probe1), probe2, vc.FindIndexByName(probe2), vc.Length())
+				return
+			}
+			vc.RemoveByName(probe2)
+			if vc.Length() != 1 || vc.Get(0) != variables.IVariable(v1) {
+				c.Failf("variable names that differ in a character that is not a letter are taken for one name", "collection [%q=1, %q=2]: RemoveByName(%q) leaves %d entries, first %q", n1, n2, probe2, vc.Length(), vc.Get(0).Name())
+				return
+			}
+			if rs[0] >= ' ' && rs[1] >= ' ' && rs[0] != 0x7f && rs[1] != 0x7f {
+				calc := calculator.NewExpressionCalculator()
+				src := "\"" + n1 + "\" * 10 + \"" + n2 + "\""
+				var err error
+				var res *variants.Variant
+				if pn := mon.Try(func() {
+					if err = calc.SetExpression(src); err == nil {
+						for _, v := range calc.DefaultVariables().GetAll() {
+							if v.Name() == n1 {
+								v.SetValue(variants.VariantFromInteger(1))
+							} else if v.Name() == n2 {
+								v.SetValue(variants.VariantFromInteger(2))
+							}
+						}
+						res, err = calc.Evaluate()
+					}
+				}); pn != nil {
+					c.FailPanic("expression with two quoted identifiers", pn)
+					return
+				}
+				if err != nil || res == nil || calc.DefaultVariables().Length() != 2 || res.Type() != variants.Integer || res.AsInteger() != 12 {
+					c.Failf("variable names that differ in a character that is not a letter are taken for one name", "expression %q with automatic variables: %d default variables, result %v, error %v; want 2 variables and 12", src, calc.DefaultVariables().Length(), snap(res), err)
+					return
+				}
+			}
+			c.NonTrivial()
 		},
 	}
 	indep := &mon.Sub{
@@ -638,12 +750,12 @@ func buildC18(cfg *mon.Config) []*mon.Sub {
 			}
 		},
 	}
-	var subs = []*mon.Sub{exprs, resolve, tmpl, indep}
+	var subs = []*mon.Sub{exprs, resolve, tmpl, punct, indep}
 	for _, kind := range []string{"variables", "functions"} {
 		kind := kind
 		subs = append(subs, &mon.Sub{
 			Name:          "collection-vs-list-model-" + kind,
-			Rule:          fmt.Sprintf("every sequence of %d operations over {Add(a|A|b), Locate(a|A|b), RemoveByName(a|A|b), Remove(0), Remove(last), Clear, ClearValues, SetValue(first)} on a %s collection; after every operation Length, Get(i), GetAll, entry identity and value, FindIndexByName/FindByName for a, A, b, B, c are compared with an ordered-list model (first entry wins case-insensitively); plus seeded sequences up to 60 operations", depth, kind),
+			Rule:          fmt.Sprintf("every sequence of %d operations over {Add(a|A|b), Locate(a|A|b), RemoveByName(a|A|b), Remove(0), Remove(last), Clear, ClearValues, SetValue(first), in-place update of the last value} on a %s collection; after every operation every value object the caller ever handed to SetValue must still hold what the caller (or an in-place update) put there - clearing values replaces them, it does not empty objects the caller holds - and Length, Get(i), GetAll, entry identity and value, FindIndexByName/FindByName for a, A, b, B, c are compared with an ordered-list model (first entry wins case-insensitively); plus seeded sequences up to 60 operations", depth, kind),
 			Exhaustive:    true,
 			DistinctByGen: true,
 			Floor:         1000,
